@@ -25,6 +25,9 @@ type BMSpec struct {
 	Inputs  int
 	Outputs int
 	Bonds   [][2]string // {sink (internal input name), source (internal output name)}
+	// ShareDomains: processors with identical specs are instances of ONE domain (a replicated core),
+	// as the CLI's -add-processor <domain> allows; otherwise every processor gets a domain of its own.
+	ShareDomains bool `json:",omitempty"`
 }
 
 // OpByName looks an opcode up in the static registry.
@@ -83,13 +86,20 @@ func Build(s BMSpec) (*bondmachine.Bondmachine, error) {
 	bm := new(bondmachine.Bondmachine)
 	bm.Rsize = uint8(s.Rsize)
 	bm.Init()
+	domOf := map[string]int{}
 	for i, ps := range s.Procs {
-		m, err := BuildProc(s.Rsize, ps)
-		if err != nil {
-			return nil, fmt.Errorf("proc %d: %v", i, err)
+		key := fmt.Sprintf("%+v", ps)
+		dom, shared := domOf[key]
+		if !s.ShareDomains || !shared {
+			m, err := BuildProc(s.Rsize, ps)
+			if err != nil {
+				return nil, fmt.Errorf("proc %d: %v", i, err)
+			}
+			bm.Domains = append(bm.Domains, m)
+			dom = len(bm.Domains) - 1
+			domOf[key] = dom
 		}
-		bm.Domains = append(bm.Domains, m)
-		if _, err := bm.Add_processor(i); err != nil {
+		if _, err := bm.Add_processor(dom); err != nil {
 			return nil, err
 		}
 	}
@@ -137,6 +147,7 @@ type HSOptions struct {
 	MaxPad     int // non-IO instructions per slot
 	Rsizes     []int
 	ExtraALU   []string // additional two-register opcodes mixed into the padding (e.g. addp, multp)
+	Replicate  bool // sometimes make a processor an exact replica of an earlier one (same domain)
 	EqualLoops bool // pad every loop to the same length (consumers of a fan-out advance at equal speed)
 	NoFanout   bool
 }
@@ -279,6 +290,18 @@ func HandshakeMachine(t *rapid.T, o HSOptions) BMSpec {
 				// insert nops just before the closing jump
 				j := ps.Prog[len(ps.Prog)-1]
 				ps.Prog = append(ps.Prog[:len(ps.Prog)-1], "nop", j)
+			}
+		}
+	}
+	if o.Replicate {
+		for i := 1; i < len(s.Procs); i++ {
+			for j := 0; j < i; j++ {
+				if s.Procs[i].R == s.Procs[j].R && s.Procs[i].N == s.Procs[j].N && s.Procs[i].M == s.Procs[j].M &&
+					rapid.IntRange(0, 1).Draw(t, "replica") == 1 {
+					s.Procs[i].Prog = append([]string(nil), s.Procs[j].Prog...)
+					s.ShareDomains = true
+					break
+				}
 			}
 		}
 	}
